@@ -1189,68 +1189,64 @@ func (x *c02ctx) r2x18() {
 	if fi == nil {
 		return
 	}
-	// generators of the switch tag: locals assigned from genValue(<expr through n.anc.anc>)
-	tagGen := map[types.Object]bool{}
-	ast.Inspect(fi.Decl.Body, func(q ast.Node) bool {
-		as, ok := q.(*ast.AssignStmt)
-		if !ok || len(as.Lhs) != 1 || len(as.Rhs) != 1 {
-			return true
-		}
-		c, ok := unparen(as.Rhs[0]).(*ast.CallExpr)
-		if !ok || !isCallTo(info, c, "interp.genValue") || len(c.Args) != 1 {
-			return true
-		}
-		if strings.Contains(types.ExprString(c.Args[0]), "anc.anc.child") {
-			if id := identOf(as.Lhs[0]); id != nil {
-				tagGen[info.ObjectOf(id)] = true
-			}
-		}
-		return true
-	})
 	n := 0
 	for k, fl := range x.closuresOf(fi) {
-		tags := map[types.Object]*ast.AssignStmt{}
+		// the comparison of the tag with a case value: a == of two Interface() results, inside a
+		// loop over the case values; the tag is the operand defined outside that loop
+		var cmp *ast.BinaryExpr
+		var loop ast.Node
 		ast.Inspect(fl.Body, func(q ast.Node) bool {
-			as, ok := q.(*ast.AssignStmt)
-			if !ok || as.Tok != token.DEFINE || len(as.Lhs) != 1 || len(as.Rhs) != 1 {
+			be, ok := q.(*ast.BinaryExpr)
+			if !ok || be.Op != token.EQL || len(callsIn(info, be, true, "reflect.Value.Interface")) != 2 {
 				return true
 			}
-			if c, ok := unparen(as.Rhs[0]).(*ast.CallExpr); ok {
-				if g := identOf(c.Fun); g != nil && tagGen[info.ObjectOf(g)] {
-					if id := identOf(as.Lhs[0]); id != nil {
-						tags[info.ObjectOf(id)] = as
-					}
+			for _, p := range enclosingPath(fl.Body, be) {
+				switch p.(type) {
+				case *ast.RangeStmt, *ast.ForStmt:
+					cmp, loop = be, p
 				}
 			}
 			return true
 		})
-		if len(tags) == 0 {
+		if cmp == nil {
 			continue
 		}
-		// only the closures comparing values (a loop over the case values with ==)
-		compares := false
-		ast.Inspect(fl.Body, func(q ast.Node) bool {
-			if be, ok := q.(*ast.BinaryExpr); ok && be.Op == token.EQL && len(callsIn(info, be, true, "reflect.Value.Interface")) == 2 {
-				compares = true
+		operand := func(e ast.Expr) types.Object {
+			c, ok := unparen(e).(*ast.CallExpr)
+			if !ok {
+				return nil
 			}
-			return true
-		})
-		if !compares {
+			se, ok := unparen(c.Fun).(*ast.SelectorExpr)
+			if !ok {
+				return nil
+			}
+			if id := identOf(se.X); id != nil {
+				return info.ObjectOf(id)
+			}
+			return nil
+		}
+		var tag types.Object
+		for _, o := range []types.Object{operand(cmp.X), operand(cmp.Y)} {
+			if o != nil && !(o.Pos() >= loop.Pos() && o.Pos() < loop.End()) {
+				tag = o
+			}
+		}
+		if tag == nil {
 			continue
 		}
 		n++
 		var bad []string
-		ast.Inspect(fl.Body, func(q ast.Node) bool {
+		ast.Inspect(loop, func(q ast.Node) bool {
 			switch y := q.(type) {
 			case *ast.AssignStmt:
 				for _, l := range y.Lhs {
-					if id := identOf(l); id != nil && tags[info.ObjectOf(id)] != nil && tags[info.ObjectOf(id)] != y {
+					if id := identOf(l); id != nil && info.ObjectOf(id) == tag {
 						bad = append(bad, "the tag "+id.Name+" is reassigned at "+ic.pos(y.Pos()))
 					}
 				}
 			case *ast.CallExpr:
 				if isCallTo(info, y, "reflect.Value.Convert") {
-					if id := identOf(unparen(y.Fun).(*ast.SelectorExpr).X); id != nil && tags[info.ObjectOf(id)] != nil {
+					if id := identOf(unparen(y.Fun).(*ast.SelectorExpr).X); id != nil && info.ObjectOf(id) == tag {
 						bad = append(bad, "the tag "+id.Name+" is converted at "+ic.pos(y.Pos()))
 					}
 				}
